@@ -17,6 +17,11 @@ plus T2+T3 for "timestep is an integer >= 1": the formula of TimeOptions.__setat
   which the fact holds, or it is decomposed into the literals each outcome implies (`not`, and/or, ==/!=, </>=, `x == False`),
   so `if a != 0: return` and `if a == 0: ...` guard the same edge.  Path obligations are then reachability questions on the CFG
   with those edges cut.
+* a failed status may be followed by a retry: from the failure edge of a status test the obligations (no store/save/append, warn, set
+  error_code, leave the loop, raise iff convergence_error) are decided on the executions that make NO further `_solver_helper` call
+  and on which later tests of the same, not re-assigned status variable fail too - so `solve; if failed and backup: solve; if failed:`
+  and `for attempt in attempts: solve; if not failed: break` followed by `if failed:` are one shape, however "failed" is spelled
+  (== 0, == SolverStatus.error with the value read from solvers.py, `not status`).
 * the objects are found by role: the results object is what run_sim returns, the clock is what is advanced by the hydraulic
   timestep attribute that _setup_sim_options fills from options.time.hydraulic_timestep, the status / message / count variables
   are whatever receives the elements of _solver_helper's triple, the tables of hydraulics.py are the positional parameters.
@@ -333,9 +338,10 @@ class Flow(object):
             m[b] = self._out(t, self.IN.get(t, frozenset()))
         return self.propagate(m, graph) if m else {}
 
-    def given(self, t, outcome):
+    def given(self, t, outcome, avoid=()):
         """the CFG of the executions that left test t on `outcome`: a later test that implies exactly the same literals on one of its
-        edges (and whose inputs are not rewritten in between) leaves on that edge too, so its other edge is removed."""
+        edges (and whose inputs are not rewritten in between, on the paths that do not pass a node of avoid) leaves on that edge too,
+        so its other edge is removed."""
         want = {repr(l) for l in self.implied(t, outcome)}
         g = self.G.copy()
         g.remove_edges_from([(t, b) for b in self.g.succ_on(t, not outcome)])
@@ -345,7 +351,7 @@ class Flow(object):
             if t2 == t:
                 continue
             for o2 in (True, False):
-                if {repr(l) for l in self.implied(t2, o2)} == want and self.stable(t, t2, self.rtest(t2)) and t2 in nx.descendants(self.G, t):
+                if {repr(l) for l in self.implied(t2, o2)} == want and self.stable(t, t2, self.rtest(t2), avoid) and t2 in nx.descendants(self.G, t):
                     g.remove_edges_from([(t2, b) for b in self.g.succ_on(t2, not o2)])
         return g
 
@@ -801,6 +807,8 @@ def run(repo, chk):
     def triple_role(expr, at):
         ks, nodes = set(), set()
         for lf in fl.origins(expr, at):
+            if lf.kind == "unbound":
+                continue        # e.g. the status assigned in a loop over solver attempts: an empty attempt list gives a NameError, not a status
             a = lf.ast if lf.kind == "expr" else None
             if isinstance(a, ast.Subscript) and isinstance(a.value, ast.Call) and (call_name(a.value) or "").split(".")[-1] == "_solver_helper" and isinstance(const(a.slice), int):
                 ks.add(const(a.slice))
@@ -833,6 +841,7 @@ def run(repo, chk):
 
     # failure tests: decided by the status of the last solve alone, true for error (0) and false for converged (1) on one edge
     ftests = {}     # test node -> (outcome on which the solve has failed, solve nodes whose status is tested)
+    fnames = {}     # test node -> the status variables it reads
     for t in fl.tests():
         rt = fl.rtest(t)
         sn = role_names(rt, t, 0)
@@ -841,6 +850,7 @@ def run(repo, chk):
         o = decided_by(rt, set(sn), sstat.get("converged", 1), sstat.get("error", 0), other=enum_const)
         if o is not None:
             ftests[t] = (o, set().union(*sn.values()))
+            fnames[t] = set(sn)
 
     # trial counter: a local incremented by a positive constant inside the loop; trial test: decided by the counter against anything else
     def is_incr(node):
@@ -895,6 +905,30 @@ def run(repo, chk):
     err_other = [n for n in errs if n not in err_set and n not in err_none]
     warns = fl.calling("warnings.warn")
     fail_edges = [(t, o) for t, (o, _) in list(ftests.items()) + list(trial_tests.items())]
+
+    def reach(G, src, dsts, avoid=(), drop_back=False):
+        """a path in G from src to one of dsts that passes no node of avoid (None if there is none)"""
+        if src in set(avoid) or src not in G:
+            return None
+        H = G.copy()
+        if drop_back:
+            H.remove_edges_from([(a, b) for a, b, d in G.edges(data=True) if d.get("back")])
+        H.remove_nodes_from(list(avoid))
+        for d in sorted(dsts):
+            if d in H and nx.has_path(H, src, d):
+                return nx.shortest_path(H, src, d)
+        return None
+
+    def failed_graph(t, o):
+        """the executions that left status test t on its failure edge and make no further solve attempt: a later test of the same
+        status variable(s) (not re-assigned on the way) leaves on its failure edge too; a path into another _solver_helper call is a
+        retry, whose outcome is judged by the tests that follow that call."""
+        G = fl.given(t, o, avoid=solves)
+        for t2, (o2, _) in ftests.items():
+            if t2 != t and fnames[t2] == fnames[t] and fl.stable(t, t2, fl.rtest(t2), avoid=solves):
+                G.remove_edges_from([(t2, b) for b in g.succ_on(t2, not o2)])
+        G.remove_nodes_from(solves)
+        return G
     for t, (o, _) in sorted(ftests.items()) + sorted(trial_tests.items()):
         kind = "solver failure" if t in ftests else "trial limit"
         succ = g.succ_on(t, o)
@@ -902,28 +936,36 @@ def run(repo, chk):
             chk.bad("R-C16-1", "%s branch exists" % kind, loc(rs, g.node_ast(t)))
             continue
         s0 = succ[0]
-        w = g.can_reach_avoiding(s0, bad_targets, [], drop_back=True)
+        if t in ftests and s0 in solves:
+            chk.ok("R-C16-1", "a failed solve is followed by another solver attempt (line %d)" % fl.line(t), loc(rs, g.node_ast(t)))
+            continue
+        G = failed_graph(t, o) if t in ftests else fl.G
+        w = reach(G, s0, bad_targets, drop_back=True)
         chk.expect(w is None, "R-C16-1", "%s branch never reaches store/save/append of the failed step" % kind, loc(rs, g.node_ast(t)),
                    "the steps reported before the failure must be exactly those of the run so far", found=g.path_text(w) if w else None)
-        w = g.can_reach_avoiding(s0, [g.exit], err_set, drop_back=True)
+        w = reach(G, s0, [g.exit], err_set, drop_back=True)
         chk.expect(w is None and bool(err_set), "R-C16-1", "%s branch sets results.error_code = error on every non-raising exit" % kind, loc(rs, g.node_ast(t)),
                    found=g.path_text(w) if w else None)
-        w = g.can_reach_avoiding(s0, [g.exit], warns, drop_back=True)
+        w = reach(G, s0, [g.exit], warns, drop_back=True)
         chk.expect(w is None and bool(warns), "R-C16-1", "%s branch warns on every non-raising exit" % kind, loc(rs, g.node_ast(t)), found=g.path_text(w) if w else None)
         # the loop must be left: the loop head is not reachable again from the branch
-        back = g.can_reach_avoiding(s0, [head], [], drop_back=False)
+        back = reach(G, s0, [head])
         chk.expect(back is None, "R-C16-1", "%s branch leaves the time loop (the run stops there)" % kind, loc(rs, g.node_ast(t)), found=g.path_text(back) if back else None)
         # raise only, and always, under convergence_error
-        region = g.reachable(s0, g.view(drop_back=True))
+        Gd = G.copy()
+        Gd.remove_edges_from([(a, b) for a, b, d in G.edges(data=True) if d.get("back")])
+        region = (set(nx.descendants(Gd, s0)) | {s0}) if s0 in Gd else set()
         raises = [n for n in region if isinstance(g.node_ast(n), ast.Raise)]
-        gc = fl.cut(conv_edges, drop_back=True)
+        gc = Gd.copy()
+        for c, oc in conv_edges:
+            gc.remove_edges_from([(c, b) for b in g.succ_on(c, oc)])
         for r in sorted(raises):
             okr = not (r in gc and s0 in gc and nx.has_path(gc, s0, r))
             chk.expect(okr, "R-C16-1", "%s: RuntimeError is raised iff convergence_error is set" % kind, loc(rs, g.node_ast(r)), found=g.label(r))
         chk.expect(bool(raises), "R-C16-1", "%s: a RuntimeError is raised when convergence_error=True" % kind, loc(rs, g.node_ast(t)))
         for c in sorted(c for c in conv if c in region):
             for b in g.succ_on(c, conv[c]):
-                w = g.can_reach_avoiding(b, [g.exit, head], raises, drop_back=False)
+                w = reach(G, b, [g.exit, head], raises)
                 chk.expect(w is None, "R-C16-1", "%s: with convergence_error set every path ends in the raise" % kind, loc(rs, g.node_ast(c)), found=g.path_text(w) if w else None)
     idom = g.dominators()
     chk.expect(len(err_none) == 1 and g.dominates(err_none[0], head, idom), "R-C16-1", "results.error_code is initialised to None before the time loop", loc(rs), found=[g.label(n) for n in err_none])
@@ -1047,7 +1089,8 @@ def run(repo, chk):
         # residual norm below the tolerance attribute:  self.tol > <max-abs / norm of the residual>
         if not (l.kind == "gt" and l.sign and re.match(r"^self\.\w*tol\w*$", l.a)):
             return False
-        os_ = [lf for lf in fs.origins(l.xb, t) if lf.kind != "unbound"]      # (a flag-guarded variable looks possibly unbound to a path-insensitive analysis)
+        # (a flag-guarded variable looks possibly unbound to a path-insensitive analysis; a None sentinel cannot pass `<`: TypeError)
+        os_ = [lf for lf in fs.origins(l.xb, t) if lf.kind != "unbound" and not (lf.kind == "expr" and isinstance(lf.ast, ast.Constant) and lf.ast.value is None)]
         return bool(os_) and all(lf.kind == "expr" and re.search(r"\b(abs|norm)\(", lf.text()) for lf in os_)
 
     def is_empty(l):
@@ -1459,6 +1502,88 @@ _REPORT_BLOCK_MERGED = (
     '                results.time.append(int(self._wn.sim_time))\n'
 )
 
+# the solver + backup solver pair of run_sim as it is today, and as one loop over the attempts (%s: the two status tests)
+_SOLVE_PAIR = (
+    "            solver_status, mesg, iter_count = _solver_helper(self._model, self._solver, self._solver_options)\n"
+    "            if solver_status == 0 and self._backup_solver is not None:\n"
+    "                solver_status, mesg, iter_count = _solver_helper(self._model, self._backup_solver, self._backup_solver_options)\n"
+    "            if solver_status == 0:\n"
+    "                if self._convergence_error:\n"
+)
+_SOLVE_LOOP = (
+    "            solve_attempts = [(self._solver, self._solver_options)]\n"
+    "            if self._backup_solver is not None:\n"
+    "                solve_attempts.append((self._backup_solver, self._backup_solver_options))\n"
+    "            for attempt_solver, attempt_options in solve_attempts:\n"
+    "                solver_status, mesg, iter_count = _solver_helper(model=self._model, solver=attempt_solver,\n"
+    "                                                                 solver_options=attempt_options)\n"
+    "                if %s:\n"
+    "                    break\n"
+    "            if %s:\n"
+    "                if self._convergence_error:\n"
+)
+# the line search of NewtonSolver.solve as it is today, and flattened (no line search: early continue)
+_LINE_SEARCH = (
+    "            # Backtracking\n"
+    "            alpha = 1.0\n"
+    "            if self.bt and outer_iter >= self.bt_start_iter:\n"
+    "                use_r_ = True\n"
+    "                for iter_bt in range(self.bt_maxiter):\n"
+    "                    x_ = x + alpha * d\n"
+    "                    model.load_var_values_from_x(x_)\n"
+    "                    r_ = model.evaluate_residuals()\n"
+    "                    new_norm = np.max(abs(r_))\n"
+    "                    if new_norm < (1.0 - 0.0001 * alpha) * r_norm:\n"
+    "                        x = x_\n"
+    "                        break\n"
+    "                    else:\n"
+    "                        alpha = alpha * self.rho\n"
+    "\n"
+    "                if iter_bt + 1 >= self.bt_maxiter:\n"
+    "                    return (\n"
+    "                        SolverStatus.error,\n"
+    "                        \"Line search failed at iteration \" + str(outer_iter),\n"
+    "                        outer_iter,\n"
+    "                    )\n"
+    "                if self.log_progress or ostream is not None:\n"
+    "                    msg = f\"iter: {outer_iter:<4d} norm: {new_norm:<10.2e} alpha: {alpha:<10.2e} time: {time.time() - t0:<8.4f}\"\n"
+    "                    if self.log_progress:\n"
+    "                        logger.log(self.log_level, msg)\n"
+    "                    if ostream is not None:\n"
+    "                        ostream.write(msg + \"\\n\")\n"
+    "            else:\n"
+    "                x += d\n"
+    "                model.load_var_values_from_x(x)\n"
+)
+_LINE_SEARCH_FLAT = (
+    "            if not (self.bt and outer_iter >= self.bt_start_iter):\n"
+    "                x += d\n"
+    "                model.load_var_values_from_x(x)\n"
+    "                continue\n"
+    "            alpha = 1.0\n"
+    "            for iter_bt in range(self.bt_maxiter):\n"
+    "                x_trial = x + alpha * d\n"
+    "                model.load_var_values_from_x(x_trial)\n"
+    "                r_trial = model.evaluate_residuals()\n"
+    "                trial_norm = np.max(abs(r_trial))\n"
+    "                if trial_norm < (1.0 - 0.0001 * alpha) * r_norm:\n"
+    "                    x = x_trial\n"
+    "                    break\n"
+    "                alpha *= self.rho\n"
+    "            if iter_bt + 1 >= self.bt_maxiter:\n"
+    "                return (\n"
+    "                    SolverStatus.error,\n"
+    "                    \"Line search failed at iteration \" + str(outer_iter),\n"
+    "                    outer_iter,\n"
+    "                )\n"
+    "            if report:\n"
+    "                msg = f\"iter: {outer_iter:<4d} norm: {trial_norm:<10.2e} alpha: {alpha:<10.2e} time: {time.time() - t0:<8.4f}\"\n"
+    "                if self.log_progress:\n"
+    "                    logger.log(self.log_level, msg)\n"
+    "                if ostream is not None:\n"
+    "                    ostream.write(msg + \"\\n\")\n"
+)
+
 WITNESSES = [
     dict(name="none-iteration-count-formatted", file=CORE, old="trial, str(iter_count), num_isolated_junctions", new="trial, iter_count, num_isolated_junctions", rule="R-C16-6"),
     dict(name="report-timestep-classified-twice", file=CORE, old="            if not isinstance(self._report_timestep, str):  # same test", new="            if isinstance(self._report_timestep, (float, int)):  # same test", rule="R-C16-6"),
@@ -1497,6 +1622,11 @@ WITNESSES = [
     dict(name="failure-continues-instead-of-break", file=CORE, old="                diagnostics.run(last_step='solve', next_step='break')\n                break\n",
          new="                diagnostics.run(last_step='solve', next_step='break')\n                continue\n", rule="R-C16-1"),
     dict(name="merged-report-flag-off-grid", file=CORE, old=_REPORT_BLOCK, new=_REPORT_BLOCK_MERGED.replace("% self._report_timestep == 0", "% self._report_timestep >= 0"), rule="R-C16-3"),
+    dict(name="attempt-loop-failure-hidden-when-backup-given", file=CORE, old=_SOLVE_PAIR,
+         new=_SOLVE_LOOP % ("solver_status != SolverStatus.error", "solver_status == SolverStatus.error and self._backup_solver is None"), rule="R-C16-1"),
+    dict(name="attempt-loop-status-of-first-attempt-tested", file=CORE, old=_SOLVE_PAIR,
+         new=(_SOLVE_LOOP % ("solver_status != SolverStatus.error", "first_status == SolverStatus.error")).replace(
+             "                if solver_status != SolverStatus.error:\n", "                if attempt_solver is self._solver:\n                    first_status = solver_status\n                if solver_status != SolverStatus.error:\n"), rule="R-C16-1"),
     # ---- behaviour-preserving rewrites (each must stay quiet)
     dict(name="P-extract-record-solved-step", file=CORE, silent=True, old=_REPORT_BLOCK,
          new="            self._record_solved_step(results, node_res, link_res)\n",
@@ -1643,5 +1773,16 @@ WITNESSES = [
          new="        cols = node_names\n        idx = results.time\n"
              "        node_res[key] = pd.DataFrame(np.array([node_res[key][n] for n in cols]).transpose(), index=idx, columns=cols)"),
     dict(name="P-merged-report-flag", file=CORE, silent=True, old=_REPORT_BLOCK, new=_REPORT_BLOCK_MERGED),
+    dict(name="P-solver-attempt-loop-enum-member", file=CORE, silent=True, old=_SOLVE_PAIR, new=_SOLVE_LOOP % ("solver_status != SolverStatus.error", "solver_status == SolverStatus.error")),
+    dict(name="P-solver-attempt-loop-truthiness-and-zero", file=CORE, silent=True, old=_SOLVE_PAIR, new=_SOLVE_LOOP % ("solver_status", "solver_status == 0")),
+    dict(name="P-solver-attempt-loop-not-status", file=CORE, silent=True, old=_SOLVE_PAIR, new=_SOLVE_LOOP % ("not solver_status == 0", "not solver_status")),
+    dict(name="P-newton-line-search-flattened-none-sentinel", file=SOLV, silent=True, old=_LINE_SEARCH, new=_LINE_SEARCH_FLAT,
+         also=[("        use_r_ = False\n", "        r_trial = None\n        trial_norm = None\n"),
+               ("            if use_r_:\n                r = r_\n                r_norm = new_norm\n            else:\n                r = model.evaluate_residuals()\n                r_norm = np.max(abs(r))\n",
+                "            if r_trial is None:\n                r = model.evaluate_residuals()\n                r_norm = np.max(abs(r))\n            else:\n                r = r_trial\n                r_norm = trial_norm\n"),
+               ("            if self.log_progress or ostream is not None:\n                if outer_iter < self.bt_start_iter:\n                    msg = f\"iter: {outer_iter:<4d} norm: {r_norm:<10.2e} time: {time.time() - t0:<8.4f}\"\n"
+                "                    if self.log_progress:\n                        logger.log(self.log_level, msg)\n                    if ostream is not None:\n                        ostream.write(msg + \"\\n\")\n",
+                "            report = self.log_progress or ostream is not None\n            if report and outer_iter < self.bt_start_iter:\n                msg = f\"iter: {outer_iter:<4d} norm: {r_norm:<10.2e} time: {time.time() - t0:<8.4f}\"\n"
+                "                if self.log_progress:\n                    logger.log(self.log_level, msg)\n                if ostream is not None:\n                    ostream.write(msg + \"\\n\")\n")]),
     dict(name="no-advance-on-resolve-false", file=CORE, old="            self._wn.sim_time += self._hydraulic_timestep\n", new="            if not resolve or True:\n                pass\n            self._wn.sim_time += self._hydraulic_timestep\n", silent=True),
 ]
